@@ -412,6 +412,27 @@ pub fn run(name: &str) -> Option<bool> {
             let b = crate::outcome::run(&p, &bytes(&["--name", "a", "--name", "b", "x", "y"]));
             a.is_value() && !b.is_value()
         }
+        // C14: `image` typed exactly: the sibling command `images` is not offered
+        "exact_name_hides_longer_sibling_in_completion" => {
+            let cmd = |id: Id, name: &str| {
+                let mut opts = OptSpec::plain(Spec::Seq(vec![item(id + 1, Names::long("force"), Leaf::Switch)]));
+                opts.descr = Some("d".into());
+                Spec::Cmd(Box::new(CmdSpec {
+                    id,
+                    names: vec![name.to_string()],
+                    shorts: vec![],
+                    help: None,
+                    adjacent: false,
+                    opts,
+                }))
+            };
+            let o = OptSpec::plain(Spec::Seq(vec![Spec::Alt(vec![cmd(10, "image"), cmd(20, "images")])]));
+            let p = build_options(&o);
+            match crate::props::comp::complete(&p, &bytes(&["image"]), 0, None, 10_000_000) {
+                Outcome::Completion(text) => !text.contains("images"),
+                _ => return None,
+            }
+        }
         // C15: fish / elvish output has no directive for a requested file completer
         "fish_output_drops_requested_shell_completer"
         | "elvish_output_drops_requested_shell_completer" => {
